@@ -6,6 +6,7 @@ import (
 	"os"
 	"reflect"
 	"testing"
+	"time"
 )
 
 func verifDeepEq(a, b interface{}) bool { return reflect.DeepEqual(a, b) }
@@ -65,8 +66,21 @@ func TestVerifReplay(t *testing.T) {
 	}
 	var out []verifReplayResult
 	for i, v := range vecs {
-		out = append(out, verifRunOne(i, v))
+		// watchdog: a harness that hangs natively (deadlock, endless loop) must not hang the batch
+		ch := make(chan verifReplayResult, 1)
+		go func() { ch <- verifRunOne(i, v) }()
+		select {
+		case r := <-ch:
+			out = append(out, r)
+		case <-time.After(45 * time.Second):
+			out = append(out, verifReplayResult{Index: i, Harness: v.Harness, Outcome: "timeout"})
+			for j := i + 1; j < len(vecs); j++ {
+				out = append(out, verifReplayResult{Index: j, Harness: vecs[j].Harness, Outcome: "native-unsupported"})
+			}
+			goto done
+		}
 	}
+done:
 	b, _ := json.MarshalIndent(out, "", " ")
 	if p := os.Getenv("VERIF_REPLAY_OUT"); p != "" {
 		os.WriteFile(p, b, 0644)
